@@ -16,8 +16,16 @@ B6 == << <<1, 0, 0>>, <<-1, 0, 0>>, <<0, 1, 0>>, <<0, -1, 0>>, <<0, 0, 1>>, <<0,
 Must(r) == r.obj          \* the generator only builds objects the constructors accept
 
 EigObj(nk, nb, ks, s) == Must(Construct("eig", [NK |-> nk], [data |-> [k \in ks |-> [b \in 1..nb |-> RVal(s, k, b)]]]))
-AmnObj(nk, nb, nw, ks, s) ==
-   Must(Construct("amn", [NK |-> nk], [data |-> [k \in ks |-> [b \in 1..nb |-> [w \in 1..nw |-> CVal(s, k, b, w, 0)]]]]))
+(* the optional tags of an .amn made from projections (AMN.from_bandstructure): positions, basis and spreads in eighths,
+   orbital names, radial nodes, spinor flag *)
+OrbName(w) == IF w % 2 = 1 THEN "s" ELSE "pz"
+AmnTags(nw, s) == [positions |-> [w \in 1..nw |-> <<w, 2 * w, s>>], orbitals |-> [w \in 1..nw |-> OrbName(w)],
+                   radial_nodes_list |-> [w \in 1..nw |-> w % 2], basis_list |-> [w \in 1..nw |-> Eye8],
+                   spread_list |-> [w \in 1..nw |-> 8 + w], spinor |-> FALSE]
+AmnObjT(nk, nb, nw, ks, s, tags) ==
+   Must(Construct("amn", [NK |-> nk] @@ (IF tags THEN AmnTags(nw, s) ELSE << >>),
+                  [data |-> [k \in ks |-> [b \in 1..nb |-> [w \in 1..nw |-> CVal(s, k, b, w, 0)]]]]))
+AmnObj(nk, nb, nw, ks, s) == AmnObjT(nk, nb, nw, ks, s, FALSE)
 (* a (nk, 1, 1) mesh with the first nnb of the six axis neighbours (find_G_and_neighbours) *)
 BkObj(nk, nnb, ks) ==
    LET nbr(k, j) == (k + B6[j][1]) % nk IN
@@ -35,7 +43,8 @@ ChkObj(nk, nb, nw, ks, s, full) ==
    Must(Construct("chk",
         [mp_grid |-> <<nk, 1, 1>>, real_lattice |-> Eye8, num_wann |-> nw, num_bands |-> nb, num_kpts |-> nk,
          kpt_red |-> [i \in 1..nk |-> <<i - 1, 0, 0>>]]
-        @@ (IF full THEN [wannier_centers_cart |-> [w \in 1..nw |-> <<w, 2 * w, s>>], wannier_spreads |-> [w \in 1..nw |-> 8 + w]] ELSE << >>),
+        @@ (IF full THEN [wannier_centers_cart |-> [w \in 1..nw |-> <<w, 2 * w, s>>], wannier_spreads |-> [w \in 1..nw |-> 8 + w],
+                          selected_bands |-> [b \in 1..nb |-> b]] ELSE << >>),
         IF full THEN [v_matrix |-> [k \in ks |-> [b \in 1..nb |-> [w \in 1..nw |-> CVal(s, k, b, w, 1)]]]] ELSE << >>))
 SpnObj(nk, nb, ks, s) ==
    Must(Construct("spn", [NK |-> nk], [data |-> [k \in ks |-> [a \in 1..nb |-> [b \in 1..nb |-> [c \in 1..3 |-> CVal(s, k, a, b, c)]]]]]))
@@ -47,7 +56,7 @@ SxuObj(cls, nk, nb, nnb, ks, s) ==
                                                CVal(s + c, k, j, a, b)]]]]]]))
 ObjOf(cls, nk, nb, nw, nnb, ks, s, flag) ==
    CASE cls = "eig" -> EigObj(nk, nb, ks, s)
-     [] cls = "amn" -> AmnObj(nk, nb, nw, ks, s)
+     [] cls = "amn" -> AmnObjT(nk, nb, nw, ks, s, flag)
      [] cls = "mmn" -> MmnObj(nk, nb, nnb, ks, s, flag)
      [] cls = "bkvec" -> BkObj(nk, nnb, ks)
      [] cls = "chk" -> ChkObj(nk, nb, nw, ks, s, flag)
@@ -56,7 +65,7 @@ ObjOf(cls, nk, nb, nw, nnb, ks, s, flag) ==
      [] cls \in {"shu", "siu"} -> SxuObj(cls, nk, nb, nnb, ks, s)
 UsesNW(cls) == cls \in {"amn", "chk"}
 UsesNNB(cls) == cls \in {"mmn", "bkvec", "uhu", "uiu", "shu", "siu"}
-UsesFlag(cls) == cls \in {"mmn", "chk"}
+UsesFlag(cls) == cls \in {"mmn", "chk", "amn"}
 FParams == {<<cls, nk, nb, nw, nnb, part, s, flag>> \in CLS \X NKS \X NBS \X NBS \X NNBS \X BOOLEAN \X PATS \X BOOLEAN :
               /\ nw <= nb /\ (~UsesNW(cls) => nw = 1)
               /\ (~UsesNNB(cls) => nnb = Min(NNBS)) /\ (cls \in {"uhu", "uiu"} => nnb <= 3)
@@ -78,7 +87,7 @@ FSpec == FInit /\ [][FNext]_fvars
 (* C19 *)
 TextRoundTrip == (obj.cls \in Writable /\ FullK(obj)) =>
                     /\ txt.err = "" /\ rd.err = ""
-                    /\ rd.obj.dic["data"] = obj.dic["data"] /\ rd.obj.dim = obj.dim /\ rd.obj.attr = obj.attr
+                    /\ rd.obj.dic["data"] = obj.dic["data"] /\ rd.obj.dim = obj.dim /\ rd.obj.attr["NK"] = obj.attr["NK"]
                     /\ (obj.cls = "mmn" => \A k \in AllK(obj.dim.NK) : rd.obj.dic["bk_reorder"][k] = IdentityReorder(obj.dim.NNB))
 WriterNeedsAllK == (obj.cls \in Writable /\ ~FullK(obj)) => txt.err = "KeyError"
 NpzRoundTrip == back.err = "" /\ back.obj = obj
